@@ -4,6 +4,7 @@ CONSTANTS
   Emit = TRUE
   Slots = {"s1", "s2"}
   MaxSteps = 5
+  UseKinds = {"parse-tokens", "parse-window", "recover-window", "context-window", "scan", "serialise", "format", "extract", "walk"}
   Machine = "history"
 INVARIANTS NoAliasing CleanInPoolH
 PROPERTIES SnapshotStable
